@@ -10,12 +10,12 @@ def policy(leader=0, prog="A", out=True, consts=True, typed=True):
 
 
 def scenario(n=2, comps=1, leader=0, out=None, consts=None, conc=None, cancel=0, rpcfail=0, stray=0,
-             fix=None, record=False, pol=None, slow=None):
+             fix=None, record=False, pol=None, slow=None, prog="A"):
     out = out if out is not None else [True] * n
     consts = consts if consts is not None else [True] * n
     if pol is None:
         leaders = leader if isinstance(leader, list) else [leader] * comps
-        pol = [[policy(leaders[c], "A", out[p], consts[p], True) for p in range(n)] for c in range(comps)]
+        pol = [[policy(leaders[c], prog, out[p], consts[p], True) for p in range(n)] for c in range(comps)]
     sc = {"n": n, "conc": conc or [1] * n, "record": record, "pol": pol,
           "faults": {"cancel": cancel, "rpcfail": rpcfail, "stray": stray},
           "fix": dict(fix or FIX_NONE)}
